@@ -1022,19 +1022,11 @@ impl Translator {
                 //     .map(|(i, _)| make_label(&format!("arm{i}")))
                 //     .collect::<Vec<_>>();
                 let mut arm_labels = vec![];
-                let mut or_pat_decisions = HashSet::default();
                 for (i, arm) in arms.iter().enumerate() {
-                    loop {
-                        let mut went_left = false;
-                        self.traverse_arm_pat(
-                            &arm.pat,
-                            mono,
-                            &mut or_pat_decisions,
-                            &mut went_left,
-                        );
-
+                    // one test per combination of alternatives of the arm's or-patterns,
+                    // leftmost alternatives first
+                    for decisions in self.or_pat_combinations(&arm.pat, mono) {
                         let arm_label = make_label(&format!("arm{i}"));
-                        arm_labels.push((arm_label.clone(), arm.clone()));
 
                         // duplicate the scrutinee before doing a comparison
                         // (a void scrutinee occupies no stack slot)
@@ -1046,28 +1038,22 @@ impl Translator {
                             &arm.pat,
                             st,
                             mono,
-                            &mut or_pat_decisions,
+                            &mut decisions.clone(),
                         );
-                        self.emit(st, Instr::JumpIf(arm_label));
-
-                        if !went_left {
-                            break;
-                        }
+                        self.emit(st, Instr::JumpIf(arm_label.clone()));
+                        arm_labels.push((arm_label, arm.clone(), decisions));
                     }
                 }
-                let mut or_pat_decisions = HashSet::default();
-                // let mut label_index = 0;
-                for (i, (arm_label, arm)) in arm_labels.iter().enumerate() {
-                    // let arm_label = &arm_labels[label_index];
-                    // label_index += 1;
+                for (i, (arm_label, arm, decisions)) in arm_labels.iter().enumerate() {
                     self.emit(st, arm_label.clone());
 
+                    // bind through the alternatives that were tested under this label
                     self.handle_pat_binding(
                         &arm.pat,
                         offset_table,
                         st,
                         mono,
-                        &mut or_pat_decisions,
+                        &mut decisions.clone(),
                     );
 
                     self.translate_stmt(&arm.stmt, true, offset_table, mono, st);
@@ -1956,7 +1942,6 @@ impl Translator {
                 if !or_pat_decisions.contains(&pat.id) {
                     let left_ty = self.get_ty(mono, left.node()).unwrap();
                     self.translate_pat_comparison(&left_ty, left, st, mono, or_pat_decisions);
-                    or_pat_decisions.insert(pat.id);
                 } else {
                     let right_ty = self.get_ty(mono, right.node()).unwrap();
                     self.translate_pat_comparison(&right_ty, right, st, mono, or_pat_decisions);
@@ -2723,12 +2708,39 @@ impl Translator {
         }
     }
 
+    // The choices of alternatives for the or-patterns of `pat`, each given as the set of
+    // or-patterns that take their right alternative: every combination, leftmost first.
+    fn or_pat_combinations(&self, pat: &Rc<Pat>, mono: &MonomorphEnv) -> Vec<HashSet<NodeId>> {
+        let mut combinations = vec![];
+        let mut decisions: HashSet<NodeId> = HashSet::default();
+        loop {
+            combinations.push(decisions.clone());
+            // the or-patterns reached under the current choices, outermost and leftmost first
+            let mut visited = vec![];
+            self.traverse_arm_pat(pat, mono, &decisions, &mut visited);
+            // advance like an odometer: the last or-pattern that went left goes right,
+            // the ones after it start over on the left
+            loop {
+                match visited.pop() {
+                    Some((id, true)) => {
+                        decisions.insert(id);
+                        break;
+                    }
+                    Some((id, false)) => {
+                        decisions.remove(&id);
+                    }
+                    None => return combinations,
+                }
+            }
+        }
+    }
+
     fn traverse_arm_pat(
         &self,
         pat: &Rc<Pat>,
         mono: &MonomorphEnv,
-        or_pat_decisions: &mut HashSet<NodeId>,
-        went_left: &mut bool,
+        or_pat_decisions: &HashSet<NodeId>,
+        went_left: &mut Vec<(NodeId, bool)>,
     ) {
         match &*pat.kind {
             PatKind::Tuple(pats) => {
@@ -2756,12 +2768,10 @@ impl Translator {
                 None => {}
             },
             PatKind::Or(left, right) => {
-                if !or_pat_decisions.contains(&pat.id) {
-                    self.traverse_arm_pat(left, mono, or_pat_decisions, went_left);
-                    *went_left = true;
-                } else {
-                    self.traverse_arm_pat(right, mono, or_pat_decisions, went_left);
-                }
+                let goes_left = !or_pat_decisions.contains(&pat.id);
+                went_left.push((pat.id, goes_left));
+                let taken = if goes_left { left } else { right };
+                self.traverse_arm_pat(taken, mono, or_pat_decisions, went_left);
             }
             PatKind::Binding(_)
             | PatKind::Void
@@ -2857,7 +2867,6 @@ impl Translator {
             PatKind::Or(left, right) => {
                 if !or_pat_decisions.contains(&pat.id) {
                     self.handle_pat_binding(left, locals, st, mono, or_pat_decisions);
-                    or_pat_decisions.insert(pat.id);
                 } else {
                     self.handle_pat_binding(right, locals, st, mono, or_pat_decisions);
                 }
